@@ -354,11 +354,44 @@ def run(chk):
         gps, _ = summ.pieces(v, gz, hooks=NOINLINE)
         gres, galpha, gkey = [p["n"] for p in gz.params]
         c = calls(gps, "tLweSymEncryptZero")
-        ok = len(c) == 1 and len(c[0]["loops"]) == 1 and (c[0]["loops"][0]["lo"], c[0]["loops"][0]["hi"]) == (ZERO, sym.arrow(P(gkey, "params"), "kpl")) \
-            and c[0]["args"] == [sym.addr(sym.idx(P(gres, "all_sample"), c[0]["loops"][0]["var"])), sym.sym(galpha),
-                                 sym.addr(sym.fld(sym.idx(sym.sym(gkey), ZERO), "tlwe_key"))]
+        # every call encrypts zero into a row of all_sample with the caller's alpha under the TLWE key; the rows visited by all
+        # calls (flat loop, block-wise nest, walking pointer) are enumerated for k, l in 1..3 against [0, kpl) with kpl = (k+1)l
+        from sa import concrete
+        import itertools as _it
+        gpar = P(gkey, "params")
+        Kz, Lz, KPLz = sym.arrow(sym.arrow(gpar, "tlwe_params"), "k"), sym.arrow(gpar, "l"), sym.arrow(gpar, "kpl")
+        ok = bool(c)
+        whyz = ""
+        rows_ix = []
+        for cz in c:
+            a0 = cz["args"][0]
+            b0, o0 = sym.ptr_split(a0)
+            if b0 != P(gres, "all_sample") and sym.root_of(b0) not in (sym.sym(gres), sym.sym(gkey)):
+                chk.broken("tGswEncryptZero: the row passed at line %s is not resolved to the parameters: %s" % (cz["line"], sym.show(a0)[:120]))
+            if b0 != P(gres, "all_sample") or cz["args"][1] != sym.sym(galpha) or \
+                    cz["args"][2] != sym.addr(sym.fld(sym.idx(sym.sym(gkey), ZERO), "tlwe_key")) or cz["guards"]:
+                ok, whyz = False, "call at line %s: %s" % (cz["line"], summ.show_piece(cz)[:120])
+                break
+            rows_ix.append((cz, sym.trip_counts_nonneg(o0)))
+        if ok:
+            for kv, lv_ in _it.product((1, 2, 3), repeat=2):
+                env0 = {Kz: kv, Lz: lv_, KPLz: (kv + 1) * lv_}
+                seen = []
+                try:
+                    for cz, ix in rows_ix:
+                        for e2 in concrete.iterate([dict(l_, lo=sym.trip_counts_nonneg(l_["lo"]), hi=sym.trip_counts_nonneg(l_["hi"])) for l_ in cz["loops"]], env0):
+                            x_ = concrete.eval_term(ix, e2)
+                            if x_ is None:
+                                raise concrete.NotEvaluable("row index %s" % sym.show(ix))
+                            seen.append(x_)
+                except concrete.NotEvaluable as e:
+                    chk.broken("tGswEncryptZero: %s" % e)
+                if sorted(seen) != list(range((kv + 1) * lv_)):
+                    ok, whyz = False, "with k = %d, l = %d the rows encrypted are %s, the sample has kpl = %d rows" % (kv, lv_, sorted(seen)[:10], (kv + 1) * lv_)
+                    break
         chk.require(ok, "R3", "tGswEncryptZero encrypts zero in all (k+1)l rows under the TLWE key", where=gz.where,
-                    ok="tLweSymEncryptZero(&all_sample[p], alpha, &key->tlwe_key) for p < kpl", bad=[summ.show_piece(p)[:100] for p in gps], variant=vn)
+                    ok="tLweSymEncryptZero(&all_sample[p], alpha, &key->tlwe_key) for p < kpl, rows enumerated for k, l in 1..3",
+                    bad=[whyz] + [summ.show_piece(p)[:100] for p in gps], variant=vn)
         for ename, adder in (("tGswSymEncrypt", "tGswAddMuH"), ("tGswSymEncryptInt", "tGswAddMuIntH")):
             e = v.fn(ename)
             eps, _ = summ.pieces(v, e, hooks=NOINLINE)
